@@ -1,9 +1,16 @@
 /-
 C13 — Zone exclusion silences excluded loudspeakers; channel lock selects one.
 
-Property theorems.  Models: `Earverif/Model/Zone.lean`, `Earverif/Model/ChannelLock.lean`;
-helper lemmas: `Earverif/Proofs/C13Zone.lean`, `Earverif/Proofs/C13Lock.lean`;
+Property theorems.  Models: `Earverif/Model/Zone.lean`, `Earverif/Model/ChannelLock.lean`,
+`Earverif/Model/CartLock.lean` (`renderCartLock`, `renderPolarLock`: the two paths of
+`GainCalc.render` for a point object with zone exclusion and channel lock, in the order the
+real code uses); helper lemmas: `Earverif/Proofs/C13*.lean`;
 per-layout tables regenerated from /repo on every run: `Earverif/Gen/C13_Tables.lean`.
+
+Wording: "zones full" means *full on the polar path; Cartesian: exactly characterised plus the
+recorded counter-example* (`cart_reset_characterised`, `cart_zone_not_silent_witness`).
+"Within maxDistance" is, in the code and in every statement here, the strict comparison
+`distance < maxDistance + 1e-5` on the unweighted distance.
 -/
 import Earverif.Proofs.C13Zone
 import Earverif.Proofs.C13Lock
@@ -11,6 +18,10 @@ import Earverif.Gen.C13_Tables
 import Earverif.Proofs.C13Real
 import Earverif.Proofs.C13CartLock
 import Earverif.Proofs.C13Polar
+import Earverif.Proofs.C13LockReal
+import Earverif.Proofs.C13PolarLock
+import Earverif.Proofs.C13ZoneSpec
+import Earverif.Proofs.C13AngleRange
 
 namespace Earverif.C13
 open Earverif.Zone Earverif.Zone.Scalar Earverif.Zone.ScalarSqrt Earverif.Lock Earverif.CartLock
@@ -204,7 +215,9 @@ theorem downmix_excluded_col_zero {α : Type} [Scalar α] (n : Nat) (gs : List (
 /-- **Polar path.** When the zone list excludes some but not all loudspeakers, the direct and
 the diffuse gain of every excluded loudspeaker `j` are exactly zero — for every output of the
 extent/point-source panner (`pans`), every divergence weighting `dg`, gain and diffuseness,
-in any scalar type satisfying `ZeroLaws`. -/
+in any scalar type satisfying `ZeroLaws`.  (`renderPolar` is run, over `Float`, against the real
+`render` on per-position gains and divergence weights captured inside the real call: driver op
+`rp`; with channel lock it is the tail of `renderPolarLock`, section 10.) -/
 theorem polar_excluded_gain_zero {α : Type} [ScalarSqrt α] (hz : ZeroLaws α)
     (n : Nat) (gs : List (List (List Nat))) (mask : List Bool) (hsna : someNotAll mask)
     (pans : List (List α)) (dg : List α) (gain diffuse : α)
@@ -376,6 +389,52 @@ theorem lock_index_valid {α : Type} [ScalarSqrt α] (allo : Bool) (pos : List (
     subst hi
     exact ⟨hk, by simpa using hke⟩
 
+/-- **Nearest, ties by priority — on what renders (over ℝ).** Whenever the handler that
+`renderCartLock` / `renderPolarLock` execute (`lockHandle`, allocentric or egocentric) locks to
+loudspeaker `i`, that loudspeaker is the one the documented rule selects (`NearestByRule`): it
+is a candidate (in the layout, not excluded, at unweighted distance `< maxDistance + 1e-5` when
+a limit is given), its weighted distance is within `1e-5` of the minimum over all candidates,
+and no candidate within `1e-5` of that minimum has a lower priority value. -/
+theorem lockHandle_nearest (allo : Bool) (pos : List (P3 ℝ)) (prio : List Nat) (excluded : List Bool) (p : P3 ℝ)
+    (maxD : Option ℝ) (i : Nat) (h : lockHandle allo pos prio excluded p (some maxD) = .locked i) :
+    NearestByRule allo pos prio excluded p maxD i := by
+  rcases lockHandle_spec allo pos prio excluded p maxD with ⟨_, hu⟩ | ⟨i', hc, hsel, rest⟩
+  · rw [hu] at h; exact LockOut.noConfusion h
+  · rw [hsel] at h
+    injection h with h
+    subst h
+    exact ⟨hc, rest⟩
+
+/-- **"… or rendered exactly as if unlocked", first half**: the handler returns the position
+unchanged exactly when no loudspeaker is a candidate (none left after exclusion, or none at
+distance `< maxDistance + 1e-5`). -/
+theorem lockHandle_unchanged_iff (allo : Bool) (pos : List (P3 ℝ)) (prio : List Nat) (excluded : List Bool) (p : P3 ℝ)
+    (maxD : Option ℝ) :
+    lockHandle allo pos prio excluded p (some maxD) = .unchanged ↔ ∀ j, ¬ LockCandidate pos excluded p maxD j := by
+  rcases lockHandle_spec allo pos prio excluded p maxD with ⟨hno, hu⟩ | ⟨i', hc, hsel, _⟩
+  · exact ⟨fun _ => hno, fun _ => hu⟩
+  · constructor
+    · intro h; rw [hsel] at h; exact LockOut.noConfusion h
+    · intro h; exact absurd hc (h i')
+
+/-- Over ℝ the `ValueError` of the empty `argmin` cannot happen (the tolerance is positive). -/
+theorem lockHandle_never_error (allo : Bool) (pos : List (P3 ℝ)) (prio : List Nat) (excluded : List Bool) (p : P3 ℝ)
+    (lock : Option (Option ℝ)) : lockHandle allo pos prio excluded p lock ≠ .error := by
+  cases lock with
+  | none => intro h; exact LockOut.noConfusion h
+  | some maxD =>
+    rcases lockHandle_spec allo pos prio excluded p maxD with ⟨_, hu⟩ | ⟨i', _, hsel, _⟩
+    · rw [hu]; intro h; exact LockOut.noConfusion h
+    · rw [hsel]; intro h; exact LockOut.noConfusion h
+
+/-- **No distance limit ⇒ always locked** when at least one loudspeaker is left. -/
+theorem lockHandle_no_limit_locks (allo : Bool) (pos : List (P3 ℝ)) (prio : List Nat) (excluded : List Bool) (p : P3 ℝ)
+    (j : Nat) (hj : j < pos.length) (hex : isExcl excluded j = false) :
+    ∃ i, lockHandle allo pos prio excluded p (some none) = .locked i := by
+  rcases lockHandle_spec allo pos prio excluded p none with ⟨hno, _⟩ | ⟨i', _, hsel, _⟩
+  · exact absurd ⟨hj, hex, fun md h => by simp at h⟩ (hno j)
+  · exact ⟨i', hsel⟩
+
 /-- The unit gain vector `e_i`. -/
 def unitVec {α : Type} [Scalar α] (n i : Nat) : List α :=
   (List.range n).map fun j => if j == i then one else zero
@@ -431,6 +490,34 @@ theorem screen_identity (e : Edges Rat)
   rw [key (-180) e.right e.left 180 az h1 h2 h3 ha1 ha2,
       key (-90) e.bottom e.top 90 el h4 h5 h6 he1 he2]
   simp [h1, h2, h3, h4, h5, h6]
+
+/-- **Identity for the whole polar `screenRef` step.** `ScreenScaleHandler.handle` on a polar block
+is `scale_position`: `cart(*scale_az_el(azimuth(p), elevation(p)), |p|)`.  With reference screen =
+reproduction screen it returns `p` itself, *given* that the conversions round-trip at `p`
+(`cart(azimuth(p), elevation(p), |p|) = p` — property C19's subject; the conversions are
+parameters of the model) and that `azimuth`/`elevation` land in `[−180,180] × [−90,90]` (the ranges
+of `arctan2`).  In floats the round trip holds to ~1e-16, hence the `1e-7` of the search. -/
+theorem screen_position_identity (azimuth elevation norm : P3 Rat → Rat) (cart : Rat → Rat → Rat → P3 Rat)
+    (e : Edges Rat)
+    (h1 : -180 ≤ e.right) (h2 : e.right ≤ e.left) (h3 : e.left ≤ 180)
+    (h4 : -90 ≤ e.bottom) (h5 : e.bottom ≤ e.top) (h6 : e.top ≤ 90) (p : P3 Rat)
+    (ha1 : -180 ≤ azimuth p) (ha2 : azimuth p ≤ 180) (he1 : -90 ≤ elevation p) (he2 : elevation p ≤ 90)
+    (hround : cart (azimuth p) (elevation p) (norm p) = p) :
+    scalePosition azimuth elevation norm cart e e p = some p ∧
+    screenHandlePolar azimuth elevation norm cart true e (some e) p = some p ∧
+    screenHandlePolar azimuth elevation norm cart false e (some e) p = some p := by
+  have h : scalePosition azimuth elevation norm cart e e p = some p := by
+    unfold scalePosition
+    rw [screen_identity e h1 h2 h3 h4 h5 h6 _ _ ha1 ha2 he1 he2]
+    simp [hround]
+  exact ⟨h, h, rfl⟩
+
+-- non-vacuity: conversions that round-trip at the point (any would do; here constants), default screen edges
+example : scalePosition (fun _ => (10 : Rat)) (fun _ => -80) (fun _ => 1) (fun _ _ _ => ⟨1, 2, 3⟩)
+    (⟨29, -29, -35 / 2, 35 / 2⟩ : Edges Rat) ⟨29, -29, -35 / 2, 35 / 2⟩ ⟨1, 2, 3⟩ = some ⟨1, 2, 3⟩ :=
+  (screen_position_identity _ _ _ _ _ (by decide +kernel) (by decide +kernel) (by decide +kernel) (by decide +kernel)
+    (by decide +kernel) (by decide +kernel) _ (by decide +kernel) (by decide +kernel) (by decide +kernel)
+    (by decide +kernel) rfl).1
 
 /-! ## 6. The zero laws hold in the reals; non-vacuity -/
 
@@ -519,7 +606,10 @@ theorem allo_exact_at_speaker (ps : List (P3 ℝ)) (hd : Distinct ps) (k : Nat) 
 /-- **Cartesian channel lock: exactly one loudspeaker, no panner hypothesis.** Whenever the
 composed Cartesian path locks (with or without `maxDistance`, with any zone list), the rendered
 gains are those of the unit vector of the locked loudspeaker `i`: direct `gain·√(1−diffuse)`
-and diffuse `gain·√diffuse` at `i`, exactly 0 everywhere else — and `i` is not excluded.
+and diffuse `gain·√diffuse` at `i`, exactly 0 everywhere else — `i` is not excluded, and `i` is
+the loudspeaker the documented rule selects among the loudspeakers left by the final mask
+(`NearestByRule`: nearest in the weighted allocentric distance up to `1e-5`, best priority among
+those within `1e-5` of the minimum, at unweighted distance `< maxDistance + 1e-5` if limited).
 Hypotheses: the allocentric positions are pairwise distinct (table obligation
 `tables_allo_ok`) and there is one nominal position per allocentric position. -/
 theorem cart_lock_one_speaker (fuel : Nat) (spks : List (Spk ℝ)) (allo : List (P3 ℝ)) (prio : List Nat)
@@ -529,7 +619,8 @@ theorem cart_lock_one_speaker (fuel : Nat) (spks : List (Spk ℝ)) (allo : List 
     (h : renderCartLock fuel spks allo prio zones p lock gain diffuse = some (final, .locked i, (d, f))) :
     isExcl final i = false ∧ i < allo.length ∧
     d = ((List.replicate allo.length (0 : ℝ)).set i 1).map (fun v => v * gain * Real.sqrt (1 - diffuse)) ∧
-    f = ((List.replicate allo.length (0 : ℝ)).set i 1).map (fun v => v * gain * Real.sqrt diffuse) := by
+    f = ((List.replicate allo.length (0 : ℝ)).set i 1).map (fun v => v * gain * Real.sqrt diffuse) ∧
+    ∃ maxD, lock = some maxD ∧ NearestByRule true allo prio final p maxD i := by
   obtain ⟨zmask, hz, hfin, hl, hi, hex⟩ :=
     cart_lock_target_not_excluded fuel spks allo prio zones p lock gain diffuse final i (d, f) h
   have hzl : zmask.length = allo.length := by rw [getExcluded_length fuel spks zones zmask hz, hlen]
@@ -547,9 +638,137 @@ theorem cart_lock_one_speaker (fuel : Nat) (spks : List (Spk ℝ)) (allo : List 
   rw [hsubl] at h
   obtain ⟨h1, h2⟩ := renderCart_unit final i hfi gain diffuse
   rw [hfl] at h1 h2
-  refine ⟨hex, hi, ?_, ?_⟩
+  refine ⟨hex, hi, ?_, ?_, ?_⟩
   · rw [← h1, h]
   · rw [← h2, h]
+  · cases lock with
+    | none => exact LockOut.noConfusion hl
+    | some maxD => exact ⟨maxD, rfl, lockHandle_nearest true allo prio final p maxD i hl⟩
+
+/-- What `renderCartLock` computed on the way: the zone mask, the final mask and the lock outcome. -/
+theorem renderCartLock_parts {α : Type} [GainCalc.Scalar α] [ScalarSqrt α] (fuel : Nat)
+    (spks : List (Spk α)) (allo : List (P3 α)) (prio : List Nat) (zones : List (Zone α)) (p : P3 α)
+    (lock : Option (Option α)) (gain diffuse : α) (final : List Bool) (lk : LockOut) (out : List α × List α)
+    (h : renderCartLock fuel spks allo prio zones p lock gain diffuse = some (final, lk, out)) :
+    ∃ zmask, getExcluded fuel spks zones = some zmask ∧ final = alloExcluded allo zmask ∧
+      lk = lockHandle true allo prio final p lock ∧
+      ∃ g, out = renderCart final [g] [Scalar.one] gain diffuse := by
+  unfold renderCartLock at h
+  simp only [Option.bind_eq_some_iff, Option.some.injEq, Prod.mk.injEq] at h
+  obtain ⟨zmask, hz, q, _, st, _, g, _, e1, e2, e3⟩ := h
+  subst e1
+  exact ⟨zmask, hz, rfl, e2.symm, g, e3.symm⟩
+
+/-- **"… or rendered exactly as if unlocked" (Cartesian).** When the lock handler leaves the
+position unchanged (no loudspeaker left within `maxDistance + 1e-5`), the whole Cartesian
+render — masks and both gain vectors — is the render of the same block without `channelLock`.
+Any scalar type (in particular the `Float` instance that runs against numpy). -/
+theorem cart_lock_unchanged_renders_as_unlocked {α : Type} [GainCalc.Scalar α] [ScalarSqrt α] (fuel : Nat)
+    (spks : List (Spk α)) (allo : List (P3 α)) (prio : List Nat) (zones : List (Zone α)) (p : P3 α)
+    (lock : Option (Option α)) (gain diffuse : α) (final : List Bool) (out : List α × List α)
+    (h : renderCartLock fuel spks allo prio zones p lock gain diffuse = some (final, .unchanged, out)) :
+    renderCartLock fuel spks allo prio zones p none gain diffuse = some (final, .unchanged, out) := by
+  unfold renderCartLock at h ⊢
+  simp only [Option.bind_eq_some_iff, Option.some.injEq, Prod.mk.injEq] at h ⊢
+  obtain ⟨zmask, hz, q, hq, st, hst, g, hg, e1, e2, e3⟩ := h
+  rw [e2] at hq
+  exact ⟨zmask, hz, q, hq, st, hst, g, hg, e1, rfl, e3⟩
+
+/-- **Cartesian channel lock with a distance limit, composed.** With `maxDistance = md` the
+Cartesian render is either the unlocked render (exactly when no loudspeaker left by the final
+mask is at unweighted distance `< md + 1e-5`), or the unit vector of the loudspeaker the
+documented rule selects among those within that limit. -/
+theorem cart_lock_limit (fuel : Nat) (spks : List (Spk ℝ)) (allo : List (P3 ℝ)) (prio : List Nat)
+    (zones : List (Zone ℝ)) (p : P3 ℝ) (md gain diffuse : ℝ) (final : List Bool) (lk : LockOut) (d f : List ℝ)
+    (hdist : Distinct allo) (hlen : spks.length = allo.length)
+    (h : renderCartLock fuel spks allo prio zones p (some (some md)) gain diffuse = some (final, lk, (d, f))) :
+    (lk = .unchanged ∧ (∀ j, ¬ LockCandidate allo final p (some md) j) ∧
+      renderCartLock fuel spks allo prio zones p none gain diffuse = some (final, .unchanged, (d, f))) ∨
+    (∃ i, lk = .locked i ∧ NearestByRule true allo prio final p (some md) i ∧ spkDist allo p i < md + 1e-5 ∧
+      d = ((List.replicate allo.length (0 : ℝ)).set i 1).map (fun v => v * gain * Real.sqrt (1 - diffuse)) ∧
+      f = ((List.replicate allo.length (0 : ℝ)).set i 1).map (fun v => v * gain * Real.sqrt diffuse)) := by
+  obtain ⟨zmask, _, _, hlk, _⟩ := renderCartLock_parts fuel spks allo prio zones p _ gain diffuse final lk (d, f) h
+  cases lk with
+  | error => exact absurd hlk.symm (lockHandle_never_error true allo prio final p _)
+  | unchanged =>
+    left
+    exact ⟨rfl, (lockHandle_unchanged_iff true allo prio final p (some md)).mp hlk.symm,
+      cart_lock_unchanged_renders_as_unlocked fuel spks allo prio zones p _ gain diffuse final (d, f) h⟩
+  | locked i =>
+    right
+    obtain ⟨_, _, hd, hf, maxD, hm, hn⟩ :=
+      cart_lock_one_speaker fuel spks allo prio zones p _ gain diffuse final i d f hdist hlen h
+    simp only [Option.some.injEq] at hm
+    subst hm
+    exact ⟨i, rfl, hn, hn.1.2.2 md rfl, hd, hf⟩
+
+theorem isExcl_true_getElem? (m : List Bool) (j : Nat) (h : isExcl m j = true) : m[j]? = some true := by
+  unfold isExcl at h
+  simp only [List.getD] at h
+  cases hj : m[j]? with
+  | none => simp [hj] at h
+  | some b => simp [hj] at h; simp [h]
+
+/-- **Cartesian silence, composed.** In the composed Cartesian path (`renderCartLock`, with or
+without channel lock), a loudspeaker `j` excluded by the zone list has exactly zero direct and
+diffuse gain whenever the row extension of the zone mask does not cover every loudspeaker — the
+exact complement of the recorded counter-example (`cart_reset_characterised`). -/
+theorem cart_lock_excluded_gain_zero {α : Type} [GainCalc.Scalar α] [ScalarSqrt α] (hz : ZeroLaws α) (fuel : Nat)
+    (spks : List (Spk α)) (allo : List (P3 α)) (prio : List Nat) (zones : List (Zone α)) (p : P3 α)
+    (lock : Option (Option α)) (gain diffuse : α) (final : List Bool) (lk : LockOut) (d f : List α)
+    (zmask : List Bool) (hlen : spks.length = allo.length)
+    (h : renderCartLock fuel spks allo prio zones p lock gain diffuse = some (final, lk, (d, f)))
+    (hzm : getExcluded fuel spks zones = some zmask)
+    (j : Nat) (hj : isExcl zmask j = true) (hnot : (alloExtend allo zmask).all id = false) :
+    d[j]? = some zero ∧ f[j]? = some zero := by
+  obtain ⟨zmask', hz', hfin, _, g, hout⟩ := renderCartLock_parts fuel spks allo prio zones p lock gain diffuse final lk (d, f) h
+  rw [hzm] at hz'
+  simp only [Option.some.injEq] at hz'
+  subst hz'
+  have hzl : allo.length = zmask.length := by rw [getExcluded_length fuel spks zones zmask hzm, hlen]
+  obtain ⟨_, _, hkeep, hmono⟩ := cart_reset_characterised allo zmask hzl j hj
+  have hfj : final[j]? = some true := by
+    rw [hfin, hkeep hnot]; exact isExcl_true_getElem? _ j hmono
+  have := cart_excluded_gain_zero_on_final_mask hz final [g] [Scalar.one] gain diffuse j hfj
+  rw [← hout] at this
+  exact this
+
+/-- **The composed Cartesian path with a lock and no distance limit is defined and locks**
+(non-vacuity of `cart_lock_one_speaker` / `cart_lock_target_not_excluded` for every layout with
+pairwise distinct allocentric positions, every zone list whose mask is computed, every position):
+`allocentric.get_excluded` never excludes everything, so a candidate is always left. -/
+theorem cart_lock_defined (fuel : Nat) (spks : List (Spk ℝ)) (allo : List (P3 ℝ)) (prio : List Nat)
+    (zones : List (Zone ℝ)) (p : P3 ℝ) (gain diffuse : ℝ) (zmask : List Bool)
+    (hz : getExcluded fuel spks zones = some zmask) (hdist : Distinct allo) (hlen : spks.length = allo.length)
+    (hn : 0 < allo.length) :
+    ∃ i d f, renderCartLock fuel spks allo prio zones p (some none) gain diffuse =
+      some (alloExcluded allo zmask, .locked i, (d, f)) := by
+  have hzl : zmask.length = allo.length := by rw [getExcluded_length fuel spks zones zmask hz, hlen]
+  have hfl : (alloExcluded allo zmask).length = allo.length := by rw [alloExcluded_length allo zmask hzl.symm, hzl]
+  -- the final mask never excludes everything
+  have hcand : ∃ j, j < allo.length ∧ isExcl (alloExcluded allo zmask) j = false := by
+    by_cases hall : (alloExtend allo zmask).all id = true
+    · refine ⟨0, hn, ?_⟩
+      unfold alloExcluded
+      simp only [hall, ↓reduceIte]
+      exact isExcl_map_false _ 0
+    · have hall' : (alloExtend allo zmask).all id = false := by simpa using hall
+      have e : alloExcluded allo zmask = alloExtend allo zmask := by
+        unfold alloExcluded; simp only [hall', Bool.false_eq_true, ↓reduceIte]
+      obtain ⟨j, hj, hje⟩ := exists_not_excluded _ hall'
+      rw [e]
+      refine ⟨j, ?_, hje⟩
+      rw [← hfl, e]; exact hj
+  obtain ⟨j, hj, hje⟩ := hcand
+  obtain ⟨i, hl⟩ := lockHandle_no_limit_locks true allo prio (alloExcluded allo zmask) p j hj hje
+  obtain ⟨hi, hex⟩ := lock_index_valid true allo prio _ p _ i hl
+  have hfi : (alloExcluded allo zmask)[i]? = some false := isExcl_false_getElem? _ i (by omega) hex
+  have hq : allo[i]? = some allo[i] := List.getElem?_eq_getElem hi
+  obtain ⟨st, hst, hpan⟩ := allo_exact_at_speaker (keep (alloExcluded allo zmask) allo)
+    (distinct_keep _ allo hdist) (rank (alloExcluded allo zmask) i) allo[i] (keep_getElem _ allo i _ hfi hq)
+  unfold renderCartLock
+  simp only [hz, Option.bind_some, hl, lockedPosition, hq, hst, hpan]
+  exact ⟨i, _, _, rfl⟩
 
 /-- **Table obligation.** For each of the ten layouts the allocentric positions are pairwise
 distinct, and the model's `_speaker_tree` on them (exact rational arithmetic) reproduces the
@@ -611,11 +830,11 @@ theorem compensate_identity_at_el0 (az : Rat) (h1 : -180 ≤ az) (h2 : az ≤ 18
 /-- … and it is not the identity in between: at elevation 30 the ±30° table points move to ±20°. -/
 example : compensatePosition true (30 : Rat) 30 = (20, 30) := by decide +kernel
 
--- Non-vacuity of `cart_lock_one_speaker` / `cart_lock_target_not_excluded`: `renderCartLock` over ℝ is not
--- computable (`Real.sqrt`); the same definition runs over `Float` in the driver, where the correspondence
--- observes hundreds of inputs per run on which it locks (evidence keys "render cart+lock … -> locked") and
--- agrees with the real renderer.  The hypotheses `Distinct` / equal lengths are discharged for the ten layouts
--- by `tables_allo_ok` and `tables_groups_ok`.
+-- Non-vacuity of `cart_lock_one_speaker` / `cart_lock_target_not_excluded` / `cart_lock_limit`: `cart_lock_defined`
+-- (the composed path with a lock and no limit is always defined and locks) and the `example`s of section 11 on the
+-- regenerated 0+5+0 table; the same definition runs over `Float` in the driver, where the correspondence observes
+-- hundreds of locking inputs per run (evidence keys "render cart+lock … -> locked").  `Distinct` / equal lengths
+-- are discharged for the ten layouts by `tables_allo_ok` and `tables_groups_ok`.
 
 /-! ## 9. Polar channel lock composed with the C05 point-source panner -/
 
@@ -633,56 +852,269 @@ theorem polar_tables_every_speaker_is_vertex :
   simp only [PointSource.RawLayout.wellFormed, Bool.and_eq_true] at this
   exact this.1.1.2
 
-/-- **`_partial`: polar lock, first accepting region a triplet.** The polar lock handler locks
-to loudspeaker `i` (a non-excluded loudspeaker of the layout: `lock_index_valid`).  *Remaining
-hypothesis:* the first region of the panner that accepts the direction of loudspeaker `i` is a
-triplet (invertible, distinct channels) that has `i` as a vertex at exactly that position.
-Then `PointSourcePanner.handle` returns exactly `e_i` (C05 `triplet_exact_at_vertex`).  Not
-proved here: that hypothesis for the real region lists (every loudspeaker *is* a vertex of some
-region — `polar_tables_every_speaker_is_vertex` — but that the *first accepting* one is such a
-region depends on the facet geometry), the downmix wrappers (0+2+0, virtual loudspeakers) and
-float rounding (residues ~1e-17). -/
+/-! ## 10. The polar path composed in the real order: lock (all loudspeakers) → pan → zone downmix -/
+
+/-- **Table obligation (channel lock).** On each of the ten regenerated layouts any two different
+loudspeakers are at least `1e-5` apart, both in the egocentric handler's distance (on
+`layout.norm_positions`) and in the allocentric handler's weighted distance (so an object
+exactly at a loudspeaker locks to that loudspeaker: `lock_at_speaker_table`), and the priorities
+are pairwise different (so `NearestByRule` determines the loudspeaker: `nearestByRule_unique`). -/
+theorem tables_lock_ok :
+    Gen.C13.layouts.all (fun L =>
+      separatedB false (L.norm.map p3Of) && separatedB true (L.allo.map p3Of) &&
+      L.norm.length == L.n && nodupB L.prio) = true := by
+  decide +kernel
+
+/-- **Polar channel lock with zone exclusion, characterised (lock → pan → zone downmix).**
+Whenever the composed polar path (`renderPolarLock`, the order of `GainCalc.render`) locks to
+loudspeaker `k` — *Hypothesis* `hexact`: the panner returns `e_k` at the position of that
+loudspeaker (C05's exactness at a vertex; see `polar_lock_one_speaker_partial`) — then
+
+* `k` is the loudspeaker the documented rule selects among ALL loudspeakers of the layout (the
+  polar lock is called without the exclusion mask): `NearestByRule … (replicate n false) …`;
+* the rendered gains are `√row · gain · √(1−diffuse)` / `√row · gain · √diffuse`, where `row` is
+  row `k` of `downmix_for_excluded(zone mask)`; the row is non-negative and sums to 1 (the power
+  is preserved: `polar_lock_power`);
+* when some but not all loudspeakers are excluded, the row and both gains are exactly 0 at every
+  excluded loudspeaker;
+* if `k` itself is not excluded (its first group is `[k]`: `tables_groups_ok`), or the mask is
+  empty/full, the row is `e_k`: exactly one loudspeaker, the nearest.
+
+So the property's "exactly one loudspeaker" fails on the polar path exactly when the locked
+loudspeaker is excluded and its replacement group has more than one non-excluded member (known
+finding `polar-lock-zone-downmix`, witness `polar_lock_zone_two_speakers_witness`). -/
+theorem polar_lock_with_zones_characterised (fuel : Nat) (spks : List (Spk ℝ)) (norm : List (P3 ℝ)) (prio : List Nat)
+    (groups : List (List (List Nat))) (zones : List (Zone ℝ)) (pan : P3 ℝ → Option (List ℝ)) (p : P3 ℝ)
+    (lock : Option (Option ℝ)) (gain diffuse : ℝ) (zmask : List Bool) (k : Nat) (d f : List ℝ)
+    (hg : groupsOK norm.length groups = true)
+    (hexact : ∀ c, norm[k]? = some c → pan c = some (unitR norm.length k))
+    (h : renderPolarLock fuel spks norm prio groups zones pan p lock gain diffuse = some (zmask, .locked k, (d, f))) :
+    (∃ maxD, lock = some maxD ∧ NearestByRule false norm prio (List.replicate norm.length false) p maxD k) ∧
+    ∃ D row, downmixForExcluded norm.length groups zmask = some D ∧ D[k]? = some row ∧ row.length = norm.length ∧
+      d = row.map (fun v => Real.sqrt v * gain * Real.sqrt (1 - diffuse)) ∧
+      f = row.map (fun v => Real.sqrt v * gain * Real.sqrt diffuse) ∧
+      (∀ v ∈ row, 0 ≤ v) ∧ row.sum = 1 ∧
+      (someNotAll zmask → ∀ j, isExcl zmask j = true → row.getD j 0 = 0 ∧ d.getD j 0 = 0 ∧ f.getD j 0 = 0) ∧
+      ((isExcl zmask k = false ∧ (groups.getD k []).head? = some [k]) ∨ ¬ someNotAll zmask →
+        row = unitR norm.length k) := by
+  obtain ⟨hlk, q, g, hq, hpan, hzm, hr⟩ :=
+    renderPolarLock_some fuel spks norm prio groups zones pan p lock gain diffuse zmask _ (d, f) h
+  have hl := hlk.symm
+  obtain ⟨hk, _⟩ := lock_index_valid false norm prio _ p lock k hl
+  have hqk : norm[k]? = some q := by simpa [lockedPosition] using hq
+  rw [hexact q hqk] at hpan
+  simp only [Option.some.injEq] at hpan
+  subst hpan
+  obtain ⟨hgl, hrows⟩ := groupsOK_row hg
+  refine ⟨?_, ?_⟩
+  · cases lock with
+    | none => exact LockOut.noConfusion hl
+    | some maxD => exact ⟨maxD, rfl, lockHandle_nearest false norm prio _ p maxD k hl⟩
+  cases hD : downmixForExcluded (α := ℝ) norm.length groups zmask with
+  | none => unfold renderPolar zoneHandle at hr; simp [hD] at hr
+  | some D =>
+    obtain ⟨row, hrow, hrl, hcase⟩ := downmix_row_real norm.length groups zmask D hD hgl k hk
+    have hout := renderPolar_unit norm.length k groups zmask D row hD hrow hrl hk gain diffuse
+    rw [hr] at hout
+    simp only [Option.some.injEq, Prod.mk.injEq] at hout
+    obtain ⟨hd, hf⟩ := hout
+    have hz0 : ∀ j, row.getD j 0 = 0 → row.getD j 0 = 0 ∧ d.getD j 0 = 0 ∧ f.getD j 0 = 0 := by
+      intro j hj
+      refine ⟨hj, ?_, ?_⟩
+      · rw [hd, getD_map_zero row _ (by simp), hj]; simp
+      · rw [hf, getD_map_zero row _ (by simp), hj]; simp
+    refine ⟨D, row, rfl, hrow, hrl, hd, hf, ?_⟩
+    rcases hcase with ⟨htriv, rfl⟩ | ⟨hnt, grp, hgrp, hnotall, hdr, rfl⟩
+    · refine ⟨unitR_nonneg _ _, unitR_sum _ _ hk, ?_, fun _ => rfl⟩
+      intro hsna
+      simp [hsna.1, hsna.2] at htriv
+    · have hmem : groups.getD k [] ∈ groups := by
+        have hkg : k < groups.length := by omega
+        simp only [List.getD, List.getElem?_eq_getElem hkg, Option.getD_some]
+        exact List.getElem_mem hkg
+      obtain ⟨hlt, hnd⟩ := (hrows _ hmem).1 grp hgrp
+      refine ⟨groupRow_nonneg _ _, ?_, ?_, ?_⟩
+      · exact groupRow_sum _ _ (nodupB_filter grp _ hnd) (fun x hx => hlt x (List.mem_filter.mp hx).1)
+          (notExcluded_pos zmask grp hnotall)
+      · intro _ j hj
+        exact hz0 j (groupRow_excluded_zero _ zmask grp j hj)
+      · rintro (⟨hne, hhead⟩ | hns)
+        · cases hgk : groups.getD k [] with
+          | nil => rw [hgk] at hhead; simp at hhead
+          | cons g0 rest =>
+            rw [hgk] at hhead hdr
+            simp only [List.head?_cons, Option.some.injEq] at hhead
+            subst hhead
+            rw [downmixRow_self norm.length zmask k rest hne] at hdr
+            simp only [Option.some.injEq] at hdr
+            exact hdr.symm
+        · exfalso
+          apply hns
+          simp only [Bool.or_eq_false_iff] at hnt
+          exact ⟨hnt.1, hnt.2⟩
+
+/-- **Power is preserved through lock, pan and zone downmix**: `Σ direct² + Σ diffuse² = gain²`
+(for `0 ≤ diffuse ≤ 1`), whatever the zone list does to the locked loudspeaker. -/
+theorem polar_lock_power (fuel : Nat) (spks : List (Spk ℝ)) (norm : List (P3 ℝ)) (prio : List Nat)
+    (groups : List (List (List Nat))) (zones : List (Zone ℝ)) (pan : P3 ℝ → Option (List ℝ)) (p : P3 ℝ)
+    (lock : Option (Option ℝ)) (gain diffuse : ℝ) (zmask : List Bool) (k : Nat) (d f : List ℝ)
+    (hg : groupsOK norm.length groups = true)
+    (hexact : ∀ c, norm[k]? = some c → pan c = some (unitR norm.length k))
+    (h : renderPolarLock fuel spks norm prio groups zones pan p lock gain diffuse = some (zmask, .locked k, (d, f)))
+    (hd0 : 0 ≤ diffuse) (hd1 : diffuse ≤ 1) :
+    (d.map fun x => x * x).sum + (f.map fun x => x * x).sum = gain * gain := by
+  obtain ⟨_, D, row, _, _, _, hd, hf, h0, hs, _, _⟩ :=
+    polar_lock_with_zones_characterised fuel spks norm prio groups zones pan p lock gain diffuse zmask k d f hg hexact h
+  rw [hd, hf]
+  exact power_of_row row gain diffuse h0 hs hd0 hd1
+
+theorem unitR_map_sqrt (n k : Nat) (c : ℝ) :
+    (unitR n k).map (fun v => Real.sqrt v * c) = (unitR n k).map (fun v => v * c) := by
+  apply List.map_congr_left
+  intro v hv
+  rcases unitR_mem n k v hv with h | h <;> simp [h]
+
+/-- **Polar channel lock: exactly one loudspeaker, the nearest** — whenever the locked loudspeaker
+is not itself excluded by the zone list (in particular with no `zoneExclusion`, where the mask is
+all-false).  *Hypothesis* `hexact` as in `polar_lock_with_zones_characterised`. -/
+theorem polar_lock_one_speaker (fuel : Nat) (spks : List (Spk ℝ)) (norm : List (P3 ℝ)) (prio : List Nat)
+    (groups : List (List (List Nat))) (zones : List (Zone ℝ)) (pan : P3 ℝ → Option (List ℝ)) (p : P3 ℝ)
+    (lock : Option (Option ℝ)) (gain diffuse : ℝ) (zmask : List Bool) (k : Nat) (d f : List ℝ)
+    (hg : groupsOK norm.length groups = true)
+    (hexact : ∀ c, norm[k]? = some c → pan c = some (unitR norm.length k))
+    (h : renderPolarLock fuel spks norm prio groups zones pan p lock gain diffuse = some (zmask, .locked k, (d, f)))
+    (hne : isExcl zmask k = false) (hhead : (groups.getD k []).head? = some [k]) :
+    k < norm.length ∧
+    d = (unitR norm.length k).map (fun v => v * gain * Real.sqrt (1 - diffuse)) ∧
+    f = (unitR norm.length k).map (fun v => v * gain * Real.sqrt diffuse) ∧
+    ∃ maxD, lock = some maxD ∧ NearestByRule false norm prio (List.replicate norm.length false) p maxD k := by
+  obtain ⟨hn, D, row, _, _, _, hd, hf, _, _, _, hunit⟩ :=
+    polar_lock_with_zones_characterised fuel spks norm prio groups zones pan p lock gain diffuse zmask k d f hg hexact h
+  have hrow := hunit (Or.inl ⟨hne, hhead⟩)
+  subst hrow
+  obtain ⟨maxD, hm, hnr⟩ := hn
+  refine ⟨hnr.1.1, ?_, ?_, maxD, hm, hnr⟩
+  · rw [hd]
+    have := unitR_map_sqrt norm.length k (gain * Real.sqrt (1 - diffuse))
+    simpa [mul_assoc] using this
+  · rw [hf]
+    have := unitR_map_sqrt norm.length k (gain * Real.sqrt diffuse)
+    simpa [mul_assoc] using this
+
+/-- **"… or rendered exactly as if unlocked" (polar).** When the lock handler leaves the position
+unchanged, the whole polar render is the render of the same block without `channelLock`.
+Any scalar type. -/
+theorem polar_lock_unchanged_renders_as_unlocked {α : Type} [ScalarSqrt α] (fuel : Nat)
+    (spks : List (Spk α)) (norm : List (P3 α)) (prio : List Nat) (groups : List (List (List Nat)))
+    (zones : List (Zone α)) (pan : P3 α → Option (List α)) (p : P3 α) (lock : Option (Option α)) (gain diffuse : α)
+    (zmask : List Bool) (out : List α × List α)
+    (h : renderPolarLock fuel spks norm prio groups zones pan p lock gain diffuse = some (zmask, .unchanged, out)) :
+    renderPolarLock fuel spks norm prio groups zones pan p none gain diffuse = some (zmask, .unchanged, out) := by
+  unfold renderPolarLock at h ⊢
+  simp only [Option.bind_eq_some_iff, Option.some.injEq, Prod.mk.injEq] at h ⊢
+  obtain ⟨q, hq, g, hg, zm, hz, o, ho, e1, e2, e3⟩ := h
+  rw [e2] at hq
+  exact ⟨q, hq, g, hg, zm, hz, o, ho, e1, rfl, e3⟩
+
+/-- **Polar channel lock with a distance limit, composed** (no panner hypothesis): with
+`maxDistance = md` the polar render is either the unlocked render — exactly when no loudspeaker of
+the layout is at distance `< md + 1e-5` — or it is locked to the loudspeaker the documented rule
+selects among those within that limit (then `polar_lock_with_zones_characterised` applies). -/
+theorem polar_lock_limit (fuel : Nat) (spks : List (Spk ℝ)) (norm : List (P3 ℝ)) (prio : List Nat)
+    (groups : List (List (List Nat))) (zones : List (Zone ℝ)) (pan : P3 ℝ → Option (List ℝ)) (p : P3 ℝ)
+    (md gain diffuse : ℝ) (zmask : List Bool) (lk : LockOut) (out : List ℝ × List ℝ)
+    (h : renderPolarLock fuel spks norm prio groups zones pan p (some (some md)) gain diffuse = some (zmask, lk, out)) :
+    (lk = .unchanged ∧ (∀ j, ¬ LockCandidate norm (List.replicate norm.length false) p (some md) j) ∧
+      renderPolarLock fuel spks norm prio groups zones pan p none gain diffuse = some (zmask, .unchanged, out)) ∨
+    (∃ i, lk = .locked i ∧ NearestByRule false norm prio (List.replicate norm.length false) p (some md) i ∧
+      spkDist norm p i < md + 1e-5) := by
+  obtain ⟨hlk, _⟩ := renderPolarLock_some fuel spks norm prio groups zones pan p _ gain diffuse zmask lk out h
+  cases lk with
+  | error => exact absurd hlk.symm (lockHandle_never_error false norm prio _ p _)
+  | unchanged =>
+    left
+    exact ⟨rfl, (lockHandle_unchanged_iff false norm prio _ p (some md)).mp hlk.symm,
+      polar_lock_unchanged_renders_as_unlocked fuel spks norm prio groups zones pan p _ gain diffuse zmask out h⟩
+  | locked i =>
+    right
+    have hn := lockHandle_nearest false norm prio _ p (some md) i hlk.symm
+    exact ⟨i, rfl, hn, hn.1.2.2 md rfl⟩
+
+/-- **`_partial`: polar lock composed with the C05 panner, first accepting region a triplet.**
+`renderPolarLock` with `PointSourcePanner.handle` as the panner locks to loudspeaker `i`, which
+the zone list does not exclude.  *Remaining hypothesis* (`hpre`, `hvert`): the first region of
+the panner that accepts the direction of loudspeaker `i` is a triplet (invertible, distinct
+channels) that has `i` as a vertex at exactly that position — then the panner returns `e_i`
+(C05 `triplet_exact_at_vertex`) and the render is the unit vector of the nearest loudspeaker.
+Not proved here: that hypothesis for the real region lists (every loudspeaker *is* a vertex of
+some region — `polar_tables_every_speaker_is_vertex` — but that the *first accepting* one is such
+a region depends on the facet geometry: C05 totality), the downmix wrappers (0+2+0, virtual
+loudspeakers), the polar extent panner around the point-source panner, float rounding (~1e-17). -/
 theorem polar_lock_one_speaker_partial
-    (regions : List (PointSource.Region ℝ)) (n : Nat) (roots : Nat → Option ℝ × Option ℝ)
-    (pos : List (P3 ℝ)) (prio : List Nat) (excluded : List Bool) (p : P3 ℝ) (maxD : Option ℝ) (i : Nat)
-    (h : lockHandle false pos prio excluded p (some maxD) = .locked i)
+    (regions : List (PointSource.Region ℝ)) (roots : Nat → Option ℝ × Option ℝ)
+    (fuel : Nat) (spks : List (Spk ℝ)) (norm : List (P3 ℝ)) (prio : List Nat)
+    (groups : List (List (List Nat))) (zones : List (Zone ℝ)) (p : P3 ℝ)
+    (lock : Option (Option ℝ)) (gain diffuse : ℝ) (zmask : List Bool) (i : Nat) (d f : List ℝ)
+    (hg : groupsOK norm.length groups = true)
+    (h : renderPolarLock fuel spks norm prio groups zones
+      (fun q => PointSource.PointSourcePanner.handle regions norm.length roots (vec3 q)) p lock gain diffuse =
+        some (zmask, .locked i, (d, f)))
+    (hne : isExcl zmask i = false) (hhead : (groups.getD i []).head? = some [i])
     (k : Nat) (hk : k < regions.length) (c0 c1 c2 : Nat) (P : PointSource.Mat3 ℝ)
     (hreg : regions[k] = .triplet [c0, c1, c2] P) (hdet : PointSource.det3 P ≠ 0)
-    (d01 : c0 ≠ c1) (d02 : c0 ≠ c2) (d12 : c1 ≠ c2) :
-    ∃ c, pos[i]? = some c ∧ isExcl excluded i = false ∧
-      ((∀ j, ∀ hj : j < k, regions[j].handle (roots j) (vec3 c) = none) →
-       ((c0 = i ∧ P.1 = vec3 c) ∨ (c1 = i ∧ P.2.1 = vec3 c) ∨ (c2 = i ∧ P.2.2 = vec3 c)) →
-       PointSource.PointSourcePanner.handle regions n roots (vec3 c) = some ((List.replicate n (0 : ℝ)).set i 1)) := by
-  obtain ⟨hi, hex⟩ := lock_index_valid false pos prio excluded p (some maxD) i h
-  refine ⟨pos[i], List.getElem?_eq_getElem hi, hex, ?_⟩
-  intro hpre hvert
+    (d01 : c0 ≠ c1) (d02 : c0 ≠ c2) (d12 : c1 ≠ c2)
+    (hpre : ∀ c, norm[i]? = some c → ∀ j, ∀ hj : j < k, regions[j].handle (roots j) (vec3 c) = none)
+    (hvert : ∀ c, norm[i]? = some c →
+      (c0 = i ∧ P.1 = vec3 c) ∨ (c1 = i ∧ P.2.1 = vec3 c) ∨ (c2 = i ∧ P.2.2 = vec3 c)) :
+    i < norm.length ∧
+    d = (unitR norm.length i).map (fun v => v * gain * Real.sqrt (1 - diffuse)) ∧
+    f = (unitR norm.length i).map (fun v => v * gain * Real.sqrt diffuse) ∧
+    ∃ maxD, lock = some maxD ∧ NearestByRule false norm prio (List.replicate norm.length false) p maxD i := by
+  apply polar_lock_one_speaker fuel spks norm prio groups zones _ p lock gain diffuse zmask i d f hg ?_ h hne hhead
+  intro c hc
   obtain ⟨e1, e2, e3⟩ := PointSource.triplet_exact_at_vertex P hdet
-  obtain ⟨s1, s2, s3⟩ := scatter_triplet_unit n c0 c1 c2 d01 d02 d12
-  apply panner_first_accept regions n roots (vec3 pos[i]) k hk _ hpre
+  obtain ⟨s1, s2, s3⟩ := scatter_triplet_unit norm.length c0 c1 c2 d01 d02 d12
+  show PointSource.PointSourcePanner.handle regions norm.length roots (vec3 c) = some (unitR norm.length i)
+  apply panner_first_accept regions norm.length roots (vec3 c) k hk _ (hpre c hc)
   rw [hreg]
-  simp only [PointSource.Region.channels, PointSource.Region.handle, PointSource.remap]
-  rcases hvert with ⟨rfl, hv⟩ | ⟨rfl, hv⟩ | ⟨rfl, hv⟩
+  simp only [PointSource.Region.channels, PointSource.Region.handle, PointSource.remap, unitR]
+  rcases hvert c hc with ⟨rfl, hv⟩ | ⟨rfl, hv⟩ | ⟨rfl, hv⟩
   · rw [← hv, e1]; simp [PointSource.vecList, s1]
   · rw [← hv, e2]; simp [PointSource.vecList, s2]
   · rw [← hv, e3]; simp [PointSource.vecList, s3]
 
-/-- **`_partial`: polar lock, first accepting region a quad.** Same statement when the first
-accepting region is a quadrilateral whose selected roots put the direction at pan-square corner
-`m` (`quad_corner` of C05; the roots come from `np.roots`, a parameter of the C05 model): the
-answer is `e_i` for `i` = channel number `order[m]` of the region. -/
+/-- **`_partial`: polar lock composed with the C05 panner, first accepting region a quad.** Same
+statement when the first region accepting the direction of the locked loudspeaker `i` is a
+quadrilateral whose selected roots put that direction at pan-square corner `m` (`quad_corner` of
+C05; the roots come from `np.roots`, a parameter of the C05 model) and channel number `order[m]`
+of the region is `i`. -/
 theorem polar_lock_one_speaker_quad_partial
-    (regions : List (PointSource.Region ℝ)) (n : Nat) (roots : Nat → Option ℝ × Option ℝ) (q : PointSource.Vec3 ℝ)
-    (k : Nat) (hk : k < regions.length) (a b c d : Nat) (Q : PointSource.QuadRegion ℝ)
-    (hreg : regions[k] = .quad [a, b, c, d] Q)
-    (dab : a ≠ b) (dac : a ≠ c) (dad : a ≠ d) (dbc : b ≠ c) (dbd : b ≠ d) (dcd : c ≠ d)
+    (regions : List (PointSource.Region ℝ)) (roots : Nat → Option ℝ × Option ℝ)
+    (fuel : Nat) (spks : List (Spk ℝ)) (norm : List (P3 ℝ)) (prio : List Nat)
+    (groups : List (List (List Nat))) (zones : List (Zone ℝ)) (p : P3 ℝ)
+    (lock : Option (Option ℝ)) (gain diffuse : ℝ) (zmask : List Bool) (i : Nat) (d f : List ℝ)
+    (hg : groupsOK norm.length groups = true)
+    (h : renderPolarLock fuel spks norm prio groups zones
+      (fun q => PointSource.PointSourcePanner.handle regions norm.length roots (vec3 q)) p lock gain diffuse =
+        some (zmask, .locked i, (d, f)))
+    (hne : isExcl zmask i = false) (hhead : (groups.getD i []).head? = some [i])
+    (k : Nat) (hk : k < regions.length) (a b c d' : Nat) (Q : PointSource.QuadRegion ℝ)
+    (hreg : regions[k] = .quad [a, b, c, d'] Q)
+    (dab : a ≠ b) (dac : a ≠ c) (dad : a ≠ d') (dbc : b ≠ c) (dbd : b ≠ d') (dcd : c ≠ d')
     (ho : PointSource.isPermOfRange Q.order 4 = true)
     (x y : ℝ) (m : Nat) (hroots : roots k = (some x, some y))
     (hm : (x, y, m) ∈ [((0 : ℝ), (0 : ℝ), 0), (1, 0, 1), (1, 1, 2), (0, 1, 3)])
-    (out : List ℝ) (hacc : Q.handle (some x) (some y) q = some out)
-    (hpre : ∀ j, ∀ hj : j < k, regions[j].handle (roots j) q = none) :
-    PointSource.PointSourcePanner.handle regions n roots q =
-      some ((List.replicate n (0 : ℝ)).set ([a, b, c, d].getD (Q.order.getD m 0) 0) 1) := by
-  have hout := PointSource.quad_corner Q q x y m out ho hm hacc
+    (hchan : [a, b, c, d'].getD (Q.order.getD m 0) 0 = i)
+    (hacc : ∀ q, norm[i]? = some q → ∃ out, Q.handle (some x) (some y) (vec3 q) = some out)
+    (hpre : ∀ q, norm[i]? = some q → ∀ j, ∀ hj : j < k, regions[j].handle (roots j) (vec3 q) = none) :
+    i < norm.length ∧
+    d = (unitR norm.length i).map (fun v => v * gain * Real.sqrt (1 - diffuse)) ∧
+    f = (unitR norm.length i).map (fun v => v * gain * Real.sqrt diffuse) ∧
+    ∃ maxD, lock = some maxD ∧ NearestByRule false norm prio (List.replicate norm.length false) p maxD i := by
+  apply polar_lock_one_speaker fuel spks norm prio groups zones _ p lock gain diffuse zmask i d f hg ?_ h hne hhead
+  intro q hq
+  obtain ⟨out, hacc⟩ := hacc q hq
+  have hout := PointSource.quad_corner Q (vec3 q) x y m out ho hm hacc
   have hlt : Q.order.getD m 0 < 4 := by
     have hm4 : m < 4 := by
       simp only [List.mem_cons, Prod.mk.injEq, List.mem_nil_iff, or_false] at hm
@@ -691,10 +1123,305 @@ theorem polar_lock_one_speaker_quad_partial
     have hl : m < Q.order.length := by omega
     rw [List.getD_eq_getElem?_getD, List.getElem?_eq_getElem hl, Option.getD_some]
     exact ho.1.2 _ (List.getElem_mem hl)
-  apply panner_first_accept regions n roots q k hk _ hpre
+  show PointSource.PointSourcePanner.handle regions norm.length roots (vec3 q) = some (unitR norm.length i)
+  apply panner_first_accept regions norm.length roots (vec3 q) k hk _ (hpre q hq)
   rw [hreg]
   simp only [PointSource.Region.channels, PointSource.Region.handle, PointSource.remap, hroots, hacc, hout,
     Option.map_some]
-  rw [scatter_quad_unit n a b c d dab dac dad dbc dbd dcd _ hlt]
+  rw [scatter_quad_unit norm.length a b c d' dab dac dad dbc dbd dcd _ hlt, hchan]
+  rfl
+
+/-- **`_partial`: polar lock on the regenerated C05 tables — what exactly is left.** With the concrete
+point-source panner of C01/C05 (`GainCalc.pspHandle l`: regenerated region table, first accepting
+region, downmix / stereo wrappers, quad pan values by the closed form `quadRoot`) plugged into
+`renderPolarLock`, "exactly one loudspeaker, the nearest" follows from the single *remaining
+hypothesis* `hvertex`: at the position of the locked loudspeaker `k` that panner answers exactly
+`e_k`.  C05 proves that it answers *something* (`pspHandle_total_layouts`) and that a triplet / quad
+having `k` as a vertex answers `e_k` (`triplet_exact_at_vertex`, `quad_corner`); not proved: that
+every region tried *before* the first region containing `k` rejects that position (for QuadRegions
+this is a sign statement about the in general irrational roots of two quadratics per region; on
+0+5+0 and 0+7+0 every loudspeaker's first accepting region is a quad preceded by other quads), that `quadRoot` evaluates to the corner
+value 0/1 there (rational square discriminant), and that the downmix of the virtual loudspeakers
+keeps `e_k`.  The real float code leaves ~1e-17 residues on other loudspeakers at these positions
+(search tolerance 1e-9). -/
+theorem polar_lock_one_speaker_layouts_partial (l : PointSource.RawLayout)
+    (fuel : Nat) (spks : List (Spk ℝ)) (norm : List (P3 ℝ)) (prio : List Nat)
+    (groups : List (List (List Nat))) (zones : List (Zone ℝ)) (p : P3 ℝ)
+    (lock : Option (Option ℝ)) (gain diffuse : ℝ) (zmask : List Bool) (k : Nat) (d f : List ℝ)
+    (hg : groupsOK norm.length groups = true)
+    (h : renderPolarLock fuel spks norm prio groups zones (fun q => GainCalc.pspHandle l (vec3 q)) p lock gain diffuse =
+      some (zmask, .locked k, (d, f)))
+    (hne : isExcl zmask k = false) (hhead : (groups.getD k []).head? = some [k])
+    (hvertex : ∀ c, norm[k]? = some c → GainCalc.pspHandle l (vec3 c) = some (unitR norm.length k)) :
+    k < norm.length ∧
+    d = (unitR norm.length k).map (fun v => v * gain * Real.sqrt (1 - diffuse)) ∧
+    f = (unitR norm.length k).map (fun v => v * gain * Real.sqrt diffuse) ∧
+    ∃ maxD, lock = some maxD ∧ NearestByRule false norm prio (List.replicate norm.length false) p maxD k :=
+  polar_lock_one_speaker fuel spks norm prio groups zones _ p lock gain diffuse zmask k d f hg hvertex h hne hhead
+-- (an instance of `polar_lock_one_speaker`, whose hypotheses are shown satisfiable in section 11)
+
+/-! ## 11. Witnesses on the regenerated tables; non-vacuity of the composed theorems -/
+
+/-- **Counter-example (known finding `polar-lock-zone-downmix`).** Layout 0+5+0, polar object at
+azimuth 0, elevation 0, distance 1 (`cart(0, 0, 1) = (0, 1, 0)`, the position of M+000), channel
+lock without `maxDistance`, `zoneExclusion = [PolarZone(-10, 10, -10, 10)]`.
+Exact arithmetic on the regenerated table: the zone list excludes exactly M+000 (index 2), whose
+`norm_position` is `(0, 1, 0)`, and row 2 of the downmix matrix is `[1/2, 1/2, 0, 0, 0]`.
+Over ℝ, for every zone list with that mask and every panner that is exact at M+000: the lock
+selects M+000 (distance 0; all other loudspeakers are ≥ `1e-5` away) and the render is
+`√½·gain` on M+030 **and** M-030 and 0 on the locked loudspeaker — two loudspeakers, not one.
+The real renderer gives direct gains `[0.7071…, 0.7071…, 0, 0, 0]` on this input (evaluated on
+every run by `harness/c13_search.py: _probe_witness_polar`). -/
+theorem polar_lock_zone_two_speakers_witness :
+    let L := Gen.C13.L_0_5_0
+    let mask := [false, false, true, false, false]
+    (getExcluded 4 (L.spk.map spkOf) [Zone.polar (-10 : Rat) 10 (-10) 10] = some mask ∧ someNotAll mask ∧
+      (L.norm.map p3Of)[2]? = some ⟨0, 1, 0⟩ ∧
+      (downmixForExcluded (α := Rat) 5 L.groups mask).map (fun D => D[2]?) = some (some [1 / 2, 1 / 2, 0, 0, 0])) ∧
+    ∀ (fuel : Nat) (spks : List (Spk ℝ)) (zones : List (Zone ℝ)) (pan : P3 ℝ → Option (List ℝ)) (gain diffuse : ℝ),
+      getExcluded fuel spks zones = some mask →
+      pan ⟨0, 1, 0⟩ = some (unitR 5 2) →
+      renderPolarLock fuel spks ((L.norm.map p3Of).map castP3) L.prio L.groups zones pan ⟨0, 1, 0⟩ (some none)
+          gain diffuse =
+        some (mask, .locked 2,
+          ([Real.sqrt (1 / 2) * gain * Real.sqrt (1 - diffuse), Real.sqrt (1 / 2) * gain * Real.sqrt (1 - diffuse),
+            0, 0, 0],
+           [Real.sqrt (1 / 2) * gain * Real.sqrt diffuse, Real.sqrt (1 / 2) * gain * Real.sqrt diffuse,
+            0, 0, 0])) := by
+  intro L mask
+  refine ⟨by decide +kernel, ?_⟩
+  intro fuel spks zones pan gain diffuse hz hpan
+  have hsep : separatedB false (L.norm.map p3Of) = true := by decide +kernel
+  have hlen : ((L.norm.map p3Of).map castP3).length = 5 := by simp [L, Gen.C13.L_0_5_0]
+  have h2 : (L.norm.map p3Of)[2]'(by decide) = ⟨0, 1, 0⟩ := by decide +kernel
+  have hl := lock_at_speaker_table false (L.norm.map p3Of) hsep L.prio (List.replicate 5 false) 2 (by decide)
+    (isExcl_replicate_false 5 2)
+  have hc : castP3 ⟨0, 1, 0⟩ = (⟨0, 1, 0⟩ : P3 ℝ) := by simp [castP3]
+  rw [h2, hc] at hl
+  have hq : ((L.norm.map p3Of).map castP3)[2]? = some (⟨0, 1, 0⟩ : P3 ℝ) := by
+    rw [List.getElem?_map, List.getElem?_eq_getElem (by decide), h2]; simp [castP3]
+  have hDq : downmixForExcluded (α := Rat) 5 L.groups mask =
+      some [[1, 0, 0, 0, 0], [0, 1, 0, 0, 0], [1 / 2, 1 / 2, 0, 0, 0], [0, 0, 0, 1, 0], [0, 0, 0, 0, 1]] := by
+    decide +kernel
+  have hD := downmixForExcluded_cast 5 L.groups mask
+  rw [hDq] at hD
+  have hr := renderPolar_unit 5 2 L.groups mask _ (castRow [1 / 2, 1 / 2, 0, 0, 0]) hD (by rfl) (by simp [castRow]) (by decide) gain diffuse
+  unfold renderPolarLock
+  simp only [hlen, hl, lockedPosition, hq, Option.bind_some, hpan, hz, hr]
+  simp [castRow]
+
+/-- the witness satisfies the hypotheses of `polar_lock_with_zones_characterised` (non-vacuity) and
+its conclusion shows the non-unit downmix row -/
+example (pan : P3 ℝ → Option (List ℝ)) (hpan : pan ⟨0, 1, 0⟩ = some (unitR 5 2)) (spks : List (Spk ℝ))
+    (zones : List (Zone ℝ)) (h : getExcluded 4 spks zones = some [false, false, true, false, false]) :
+    ∃ d f, renderPolarLock 4 spks ((Gen.C13.L_0_5_0.norm.map p3Of).map castP3) Gen.C13.L_0_5_0.prio
+      Gen.C13.L_0_5_0.groups zones pan ⟨0, 1, 0⟩ (some none) 1 0 =
+        some ([false, false, true, false, false], .locked 2, (d, f)) ∧
+      (d.map fun x => x * x).sum + (f.map fun x => x * x).sum = 1 * 1 := by
+  have hw := (polar_lock_zone_two_speakers_witness).2 4 spks zones pan 1 0 h hpan
+  have hlen : ((Gen.C13.L_0_5_0.norm.map p3Of).map castP3).length = 5 := by simp [Gen.C13.L_0_5_0]
+  refine ⟨_, _, hw, ?_⟩
+  apply polar_lock_power 4 spks _ Gen.C13.L_0_5_0.prio Gen.C13.L_0_5_0.groups zones pan ⟨0, 1, 0⟩ (some none) 1 0
+    [false, false, true, false, false] 2 _ _ (by rw [hlen]; decide +kernel) ?_ hw (by norm_num) (by norm_num)
+  intro c hc
+  rw [hlen]
+  have hq : ((Gen.C13.L_0_5_0.norm.map p3Of).map castP3)[2]? = some (⟨0, 1, 0⟩ : P3 ℝ) := by
+    rw [List.getElem?_map, List.getElem?_eq_getElem (by decide)]
+    have h2 : (Gen.C13.L_0_5_0.norm.map p3Of)[2]'(by decide) = ⟨0, 1, 0⟩ := by decide +kernel
+    rw [h2]; simp [castP3]
+  rw [hq] at hc
+  simp only [Option.some.injEq] at hc
+  rw [← hc]; exact hpan
+
+/-- **Counter-example (known finding `cartesian-zone-extend-reset`), with the gain.** Layout 0+7+0
+and the zone mask of `cart_zone_not_silent_witness` (six of seven excluded, among them M+030 =
+index 0): for every zone list with that mask, a Cartesian object *at the allocentric position of
+M+030* without channel lock is rendered with final mask "nothing excluded" and the whole gain on
+M+030 — direct `gain·√(1−diffuse)`, diffuse `gain·√diffuse` on a zone-excluded loudspeaker. -/
+theorem cart_zone_not_silent_gain_witness :
+    let L := Gen.C13.L_0_7_0
+    let mask := [true, true, true, true, false, true, true]
+    ∀ (fuel : Nat) (spks : List (Spk ℝ)) (zones : List (Zone ℝ)) (gain diffuse : ℝ), spks.length = 7 →
+      getExcluded fuel spks zones = some mask →
+      ∃ c, ((L.allo.map p3Of).map castP3)[0]? = some c ∧ isExcl mask 0 = true ∧
+        renderCartLock fuel spks ((L.allo.map p3Of).map castP3) L.prio zones c none gain diffuse =
+          some ([false, false, false, false, false, false, false], .unchanged,
+            (((List.replicate 7 (0 : ℝ)).set 0 1).map (fun v => v * gain * Real.sqrt (1 - diffuse)),
+             ((List.replicate 7 (0 : ℝ)).set 0 1).map (fun v => v * gain * Real.sqrt diffuse))) := by
+  intro L mask fuel spks zones gain diffuse hs hz
+  have hlen : ((L.allo.map p3Of).map castP3).length = 7 := by simp [L, Gen.C13.L_0_7_0]
+  have hfin : alloExcluded ((L.allo.map p3Of).map castP3) mask = [false, false, false, false, false, false, false] := by
+    rw [alloExcluded_cast]; decide +kernel
+  have hL : L ∈ Gen.C13.layouts := by simp [L, Gen.C13.layouts]
+  have h0 : (0 : Nat) < ((L.allo.map p3Of).map castP3).length := by rw [hlen]; decide
+  refine ⟨((L.allo.map p3Of).map castP3)[0], List.getElem?_eq_getElem h0, rfl, ?_⟩
+  obtain ⟨st, hst, hpan⟩ := allo_exact_at_speaker_layouts L hL 0 _ (List.getElem?_eq_getElem h0)
+  have hu := renderCart_unit [false, false, false, false, false, false, false] 0 rfl gain diffuse
+  unfold renderCartLock
+  simp only [hz, Option.bind_some, hfin, lockHandle, lockedPosition]
+  have hk : keep [false, false, false, false, false, false, false] ((L.allo.map p3Of).map castP3) =
+      ((L.allo.map p3Of).map castP3) := by
+    simp [L, Gen.C13.L_0_7_0, keep]
+  rw [hlen] at hpan
+  rw [hk, hst]
+  simp only [Option.bind_some, hlen, hpan]
+  simp only [countF, rank, Nat.zero_add, Nat.reduceAdd, List.length_cons, List.length_nil] at hu
+  have hpair : renderCart [false, false, false, false, false, false, false] [(List.replicate 7 (0 : ℝ)).set 0 1]
+      [Scalar.one] gain diffuse =
+      (((List.replicate 7 (0 : ℝ)).set 0 1).map (fun v => v * gain * Real.sqrt (1 - diffuse)),
+       ((List.replicate 7 (0 : ℝ)).set 0 1).map (fun v => v * gain * Real.sqrt diffuse)) := Prod.ext hu.1 hu.2
+  rw [hpair]
+
+/-- non-vacuity of `cart_lock_one_speaker`, `cart_lock_target_not_excluded`, `cart_lock_limit`: on the
+regenerated 0+5+0 table (cast to ℝ), no zones, any position: the composed Cartesian path with a lock
+is defined and locks to some loudspeaker `i`, to which `cart_lock_one_speaker` then applies -/
+example (p : P3 ℝ) (gain diffuse : ℝ) :
+    ∃ i d f final, renderCartLock 4 (List.replicate 5 (⟨0, 0, 0, 0, 0⟩ : Spk ℝ))
+        ((Gen.C13.L_0_5_0.allo.map p3Of).map castP3) Gen.C13.L_0_5_0.prio [] p (some none) gain diffuse =
+        some (final, .locked i, (d, f)) ∧
+      d = ((List.replicate 5 (0 : ℝ)).set i 1).map (fun v => v * gain * Real.sqrt (1 - diffuse)) ∧
+      NearestByRule true ((Gen.C13.L_0_5_0.allo.map p3Of).map castP3) Gen.C13.L_0_5_0.prio final p none i := by
+  have hlen : ((Gen.C13.L_0_5_0.allo.map p3Of).map castP3).length = 5 := by simp [Gen.C13.L_0_5_0]
+  have hd : Distinct ((Gen.C13.L_0_5_0.allo.map p3Of).map castP3) := distinct_cast _ (by decide +kernel)
+  obtain ⟨i, d, f, h⟩ := cart_lock_defined 4 (List.replicate 5 (⟨0, 0, 0, 0, 0⟩ : Spk ℝ)) _ Gen.C13.L_0_5_0.prio []
+    p gain diffuse _ rfl hd (by rw [hlen, List.length_replicate]) (by rw [hlen]; decide)
+  obtain ⟨_, _, hdd, _, maxD, hm, hn⟩ := cart_lock_one_speaker 4 _ _ _ [] p _ gain diffuse _ i d f hd
+    (by rw [hlen, List.length_replicate]) h
+  simp only [Option.some.injEq] at hm
+  subst hm
+  rw [hlen] at hdd
+  exact ⟨i, d, f, _, h, hdd, hn⟩
+
+/-- … and with a distance limit that no loudspeaker meets the same block is rendered as if unlocked
+(`cart_lock_limit`, first alternative): a negative limit admits nobody -/
+example (allo : List (P3 ℝ)) (final : List Bool) (p : P3 ℝ) (j : Nat) :
+    ¬ LockCandidate allo final p (some (-1)) j := by
+  rintro ⟨hj, _, hd⟩
+  have := hd (-1) rfl
+  have h0 : 0 ≤ spkDist allo p j := by
+    unfold spkDist
+    split
+    · exact Real.sqrt_nonneg _
+    · exact le_refl 0
+  norm_num at this
+  linarith
+
+
+/-- **The composed polar path is defined whenever it locks and the panner answers `e_k`** (non-vacuity
+of `polar_lock_with_zones_characterised`, `polar_lock_one_speaker` and the `_partial` theorems): with
+well-formed groups the zone downmix never asserts. -/
+theorem polar_lock_defined (fuel : Nat) (spks : List (Spk ℝ)) (norm : List (P3 ℝ)) (prio : List Nat)
+    (groups : List (List (List Nat))) (zones : List (Zone ℝ)) (pan : P3 ℝ → Option (List ℝ)) (p : P3 ℝ)
+    (lock : Option (Option ℝ)) (gain diffuse : ℝ) (zmask : List Bool) (k : Nat)
+    (hg : groupsOK norm.length groups = true)
+    (hl : lockHandle false norm prio (List.replicate norm.length false) p lock = .locked k)
+    (hexact : ∀ c, norm[k]? = some c → pan c = some (unitR norm.length k))
+    (hz : getExcluded fuel spks zones = some zmask) (hlen : spks.length = norm.length) :
+    ∃ d f, renderPolarLock fuel spks norm prio groups zones pan p lock gain diffuse =
+      some (zmask, .locked k, (d, f)) := by
+  obtain ⟨hk, _⟩ := lock_index_valid false norm prio _ p lock k hl
+  have hzl : zmask.length = norm.length := by rw [getExcluded_length fuel spks zones zmask hz, hlen]
+  obtain ⟨hgl, _⟩ := groupsOK_row hg
+  obtain ⟨Dq, hDq, _⟩ := downmix_defined norm.length groups zmask hg hzl
+  have hD := downmixForExcluded_cast norm.length groups zmask
+  rw [hDq] at hD
+  obtain ⟨row, hrow, hrl, _⟩ := downmix_row_real norm.length groups zmask _ hD hgl k hk
+  have hr := renderPolar_unit norm.length k groups zmask _ row hD hrow hrl hk gain diffuse
+  have hq : norm[k]? = some norm[k] := List.getElem?_eq_getElem hk
+  unfold renderPolarLock
+  simp only [hl, lockedPosition, hq, Option.bind_some, hexact _ hq, hz, hr]
+  exact ⟨_, _, rfl⟩
+
+/-- non-vacuity of `polar_lock_one_speaker`: 0+5+0 (regenerated table, cast to ℝ), no zones, object at
+M+000, a panner that is exact there: the composed polar path locks to M+000 and renders `e_2`·gain -/
+example (pan : P3 ℝ → Option (List ℝ)) (hpan : pan ⟨0, 1, 0⟩ = some (unitR 5 2)) (gain diffuse : ℝ) :
+    ∃ d f, renderPolarLock 4 (List.replicate 5 (⟨0, 0, 0, 0, 0⟩ : Spk ℝ))
+        ((Gen.C13.L_0_5_0.norm.map p3Of).map castP3) Gen.C13.L_0_5_0.prio Gen.C13.L_0_5_0.groups [] pan ⟨0, 1, 0⟩
+        (some none) gain diffuse = some (List.replicate 5 false, .locked 2, (d, f)) ∧
+      d = (unitR 5 2).map (fun v => v * gain * Real.sqrt (1 - diffuse)) := by
+  have hlen : ((Gen.C13.L_0_5_0.norm.map p3Of).map castP3).length = 5 := by simp [Gen.C13.L_0_5_0]
+  have h2 : (Gen.C13.L_0_5_0.norm.map p3Of)[2]'(by decide) = ⟨0, 1, 0⟩ := by decide +kernel
+  have hl := lock_at_speaker_table false (Gen.C13.L_0_5_0.norm.map p3Of) (by decide +kernel) Gen.C13.L_0_5_0.prio
+    (List.replicate 5 false) 2 (by decide) (isExcl_replicate_false 5 2)
+  have hc : castP3 ⟨0, 1, 0⟩ = (⟨0, 1, 0⟩ : P3 ℝ) := by simp [castP3]
+  rw [h2, hc] at hl
+  have hq : ((Gen.C13.L_0_5_0.norm.map p3Of).map castP3)[2]? = some (⟨0, 1, 0⟩ : P3 ℝ) := by
+    rw [List.getElem?_map, List.getElem?_eq_getElem (by decide), h2]; simp [castP3]
+  have hex : ∀ c, ((Gen.C13.L_0_5_0.norm.map p3Of).map castP3)[2]? = some c →
+      pan c = some (unitR ((Gen.C13.L_0_5_0.norm.map p3Of).map castP3).length 2) := by
+    intro c hc'
+    rw [hq] at hc'
+    simp only [Option.some.injEq] at hc'
+    rw [← hc', hlen]; exact hpan
+  have hg : groupsOK ((Gen.C13.L_0_5_0.norm.map p3Of).map castP3).length Gen.C13.L_0_5_0.groups = true := by
+    rw [hlen]; decide +kernel
+  obtain ⟨d, f, h⟩ := polar_lock_defined 4 (List.replicate 5 (⟨0, 0, 0, 0, 0⟩ : Spk ℝ)) _ Gen.C13.L_0_5_0.prio
+    Gen.C13.L_0_5_0.groups [] pan ⟨0, 1, 0⟩ (some none) gain diffuse (List.replicate 5 false) 2 hg
+    (by rw [hlen]; exact hl) hex rfl (by rw [hlen, List.length_replicate])
+  obtain ⟨_, hd, _, _⟩ := polar_lock_one_speaker 4 _ _ _ _ [] pan _ _ gain diffuse _ 2 d f hg hex h
+    (isExcl_replicate_false 5 2) (by decide +kernel)
+  rw [hlen] at hd
+  exact ⟨d, f, h, hd⟩
+
+/-- non-vacuity of `polar_lock_one_speaker_partial`: three loudspeakers on the coordinate axes, one triplet
+region with the identity position matrix, object on the first axis: the lock selects loudspeaker 0, the C05
+panner's first (only) region is a triplet with loudspeaker 0 as its first vertex, and the render is `e_0`·gain -/
+example (gain diffuse : ℝ) (roots : Nat → Option ℝ × Option ℝ) :
+    let ps : List (P3 Rat) := [⟨1, 0, 0⟩, ⟨0, 1, 0⟩, ⟨0, 0, 1⟩]
+    let P : PointSource.Mat3 ℝ := ((1, 0, 0), (0, 1, 0), (0, 0, 1))
+    ∃ d f, renderPolarLock 4 (List.replicate 3 (⟨0, 0, 0, 0, 0⟩ : Spk ℝ)) (ps.map castP3) [0, 1, 2]
+        [[[0], [1, 2]], [[1], [0, 2]], [[2], [0, 1]]] []
+        (fun q => PointSource.PointSourcePanner.handle [.triplet [0, 1, 2] P] 3 roots (vec3 q)) (castP3 ⟨1, 0, 0⟩)
+        (some none) gain diffuse = some (List.replicate 3 false, .locked 0, (d, f)) ∧
+      d = (unitR 3 0).map (fun v => v * gain * Real.sqrt (1 - diffuse)) := by
+  intro ps P
+  have hlen : (ps.map castP3).length = 3 := by simp [ps]
+  have hl := lock_at_speaker_table false ps (by decide +kernel) [0, 1, 2] (List.replicate 3 false) 0 (by decide)
+    (isExcl_replicate_false 3 0)
+  have hdet : PointSource.det3 P ≠ 0 := by simp [PointSource.det3, P]
+  have hq : ∀ c, (ps.map castP3)[0]? = some c → vec3 c = P.1 := by
+    intro c hc
+    simp only [ps, List.map_cons, List.getElem?_cons_zero, Option.some.injEq] at hc
+    rw [← hc]; simp [vec3, castP3, P]
+  have hg : groupsOK (ps.map castP3).length [[[0], [1, 2]], [[1], [0, 2]], [[2], [0, 1]]] = true := by
+    rw [hlen]; decide
+  have hex : ∀ c, (ps.map castP3)[0]? = some c →
+      PointSource.PointSourcePanner.handle [.triplet [0, 1, 2] P] (ps.map castP3).length roots (vec3 c) =
+        some (unitR (ps.map castP3).length 0) := by
+    intro c hc
+    obtain ⟨e1, _, _⟩ := PointSource.triplet_exact_at_vertex P hdet
+    obtain ⟨s1, _, _⟩ := scatter_triplet_unit (ps.map castP3).length 0 1 2 (by decide) (by decide) (by decide)
+    apply panner_first_accept _ _ roots (vec3 c) 0 (by decide) _ (fun j hj => absurd hj (Nat.not_lt_zero j))
+    simp only [List.getElem_cons_zero, PointSource.Region.channels, PointSource.Region.handle, PointSource.remap,
+      hq c hc, e1, Option.map_some, PointSource.vecList, unitR]
+    rw [← s1]
+  obtain ⟨d, f, h⟩ := polar_lock_defined 4 (List.replicate 3 (⟨0, 0, 0, 0, 0⟩ : Spk ℝ)) (ps.map castP3) [0, 1, 2]
+    _ [] _ (castP3 ⟨1, 0, 0⟩) (some none) gain diffuse (List.replicate 3 false) 0 hg
+    (by rw [hlen]; exact hl) hex rfl (by rw [hlen, List.length_replicate])
+  obtain ⟨_, hd, _, _⟩ := polar_lock_one_speaker_partial [.triplet [0, 1, 2] P] roots 4 _ (ps.map castP3) [0, 1, 2] _ []
+    (castP3 ⟨1, 0, 0⟩) (some none) gain diffuse _ 0 d f hg h (isExcl_replicate_false 3 0) (by decide)
+    0 (by decide) 0 1 2 P rfl hdet (by decide) (by decide) (by decide)
+    (fun c _ j hj => absurd hj (Nat.not_lt_zero j)) (fun c hc => Or.inl ⟨rfl, (hq c hc).symm⟩)
+  rw [hlen] at hd
+  exact ⟨d, f, h, hd⟩
+
+
+/-- non-vacuity of `lock_one_speaker_partial`: a one-loudspeaker layout, object at the loudspeaker -/
+example (c : P3 ℝ) :
+    ∃ c', [c][0]? = some c' ∧ isExcl [] 0 = false ∧ (fun _ => unitVec 1 0) c' = (unitVec 1 0 : List ℝ) ∧
+      ((fun _ => unitVec 1 0) c' : List ℝ)[0]? = some one ∧
+      ∀ j, j < [c].length → j ≠ 0 → ((fun _ => unitVec 1 0) c' : List ℝ)[j]? = some zero := by
+  have hl : lockHandle false [c] [0] [] c (some none) = .locked 0 :=
+    lock_at_speaker false [c] [0] [] 0 c rfl rfl (fun j hj hlt => by simp at hlt; omega)
+  exact lock_one_speaker_partial (fun _ => unitVec 1 0) false [c] [0] [] c none 0
+    (fun k c' hk => by
+      have : k = 0 := by
+        by_cases h : k = 0
+        · exact h
+        · simp [h] at hk
+      subst this; rfl) hl
+-- `polar_lock_one_speaker_quad_partial` has no concrete instance here: a quad region needs a `QuadRegion`
+-- (polynomial coefficients, vertex order, `np.roots` outputs) from the C05 tables; its hypotheses are the
+-- conclusions of C05's `quad_corner`, whose own non-vacuity example lives in Props/C05.
 
 end Earverif.C13
